@@ -46,8 +46,10 @@ func (c *Chunker) Chunks(s string) ([]string, error) {
 	opened := false
 	buff := ""
 
-	for _, v := range s {
-		ch := string(v)
+	// the delimiter is a single ASCII byte, so the text can be cut byte-wise;
+	// ranging over runes would replace bytes that are not valid UTF-8 by U+FFFD
+	for i := 0; i < len(s); i++ {
+		ch := s[i : i+1]
 		if ch == Delimiter {
 			if opened {
 				r = append(r, buff+Delimiter)
